@@ -64,6 +64,16 @@ def worker(job):
     }
     if nat:
         scenarios["summary-after-summaries"] = {"cases": [final], "nat_sum": True, "nat_sum_history": True}
+    alt = None
+    if nat:
+        # the same election with the other setting of the summary's correlation mode: its own reference, then the same summary after
+        # three earlier summaries on that client
+        import copy
+
+        final2 = copy.deepcopy(final)
+        mp2 = final2["params"]["model_parameters"]
+        mp2["national_summary_correlation"] = not mp2.get("national_summary_correlation", True)
+        alt = ({"cases": [final2], "nat_sum": True}, {"cases": [final2], "nat_sum": True, "nat_sum_history": True})
     res = {}
     ref = sub_run(scenarios["plain"], "0", f"{seed}_ref")
     res["ref"] = ref
@@ -85,6 +95,16 @@ def worker(job):
                 pair["diff"] = f"national summary differs ({ref.get('nat_sum') or ref.get('nat_sum_exc')} vs {r.get('nat_sum') or r.get('nat_sum_exc')})"
         elif bool(ref.get("ok")) != bool(r.get("ok")):
             pair["diff"] = f"outcome differs: {ref.get('exc')} vs {r.get('exc')}"
+        out["pairs"].append(pair)
+    if alt is not None:
+        ra = sub_run(alt[0], "0", f"{seed}_altref")
+        rb = sub_run(alt[1], "1", f"{seed}_althist")
+        pair = {"name": "summary-after-summaries (other correlation mode)", "hashseed": "1", "ok": bool(ra.get("ok") and rb.get("ok")), "exc": rb.get("exc"), "diff": None}
+        if ra.get("ok") and rb.get("ok"):
+            if ra["tables"] != rb["tables"]:
+                pair["diff"] = "tables differ"
+            elif ra.get("nat_sum") != rb.get("nat_sum"):
+                pair["diff"] = f"national summary differs ({ra.get('nat_sum') or ra.get('nat_sum_exc')} vs {rb.get('nat_sum') or rb.get('nat_sum_exc')})"
         out["pairs"].append(pair)
     return out
 
